@@ -22,7 +22,7 @@ PROPS["C13"] = dict(
          "the block an object falls due; non-trivial = an object is modified or closed (or that is attempted) in the "
          "block it falls due or the block before, or >= 2 objects fall due together; distinct = by hash of the history",
     codes={},
-    explain={41: "the service end-blocker aborted",
+    explain={41: "the service end-blocker aborted (e.g. a module callback dereferenced a nil error)",
              42: "service batch queues: duplicate entry, entry behind the current height, entry without context or height marker, marker without entry, a context in both queues, or a running context in neither",
              43: "a batch entry vanished outside the end-blocker of its height, or the end-blocker handled a new batch without starting/skipping it and scheduling its expiration, or an expiration without completing the batch",
              31: "the farm end-blocker aborted",
